@@ -44,6 +44,8 @@ class _Raised:
 
 
 RAISED = _Raised()
+_DERIVED_SET = set(RM.DERIVED)
+_PRESENT = {True: RM.BOTH + RM.CROSS_ONLY, False: RM.BOTH + RM.AUTO_ONLY}
 INTERP_NAMES_AUTO = ["Gxx", "psd", "asd", "ps", "ENBW", "Gxx_dev", "XX", "Gyy"]
 INTERP_NAMES_CROSS = ["Gxx", "Gyy", "Gxy", "csd", "Hxy", "tf", "coh", "cf", "cf_rad", "cs", "ENBW", "Gyx", "XY", "ccoh", "Hyx"]
 
@@ -95,7 +97,10 @@ def generate(seed, tier):
         elif r < 0.66:
             ops.append(["deepcopy", o]); nobj += 1
         elif r < 0.76:
-            ops.append(["pickle", o, rw.randrange(0, 6)]); nobj += 1
+            if tier == "thorough" and rw.random() < 0.04:
+                ops.append(["xpickle", o, rw.randrange(2, 6)])
+            else:
+                ops.append(["pickle", o, rw.randrange(0, 6)]); nobj += 1
         elif r < 0.82:
             ops.append(["df", o])
         elif r < 0.94:
@@ -205,18 +210,15 @@ def execute(sc, out):
         except Exception as e:
             out.violate("exception", f"getattr:{name}", f"{type(e).__name__}: {e}")
             truth[name] = RAISED
-    try:
-        truth["compute_t"] = _snap(res.compute_t)   # the only clock-dependent field: taken from the object itself
-    except Exception:
-        pass
+    truth.pop("compute_t", None)   # the only clock-dependent field: clones are compared with the original object instead
     _check_r3(truth, res, iscsd, nf, out)
 
     def cache_state(o):
         c = getattr(o, "__dict__", {}).get("_cache")
         if not isinstance(c, dict):
             return "unknown"
-        n = len(c)
-        return "empty" if n == 0 else ("full" if n >= len(RM.DERIVED) else "partial")
+        n = sum(1 for k in c if k in _DERIVED_SET)      # raw fields in the cache do not count as "filled"
+        return "empty" if n == 0 else ("full" if n >= len(_PRESENT[iscsd]) else "partial")
 
     for op in sc["ops"]:
         kind = op[0]
@@ -229,7 +231,10 @@ def execute(sc, out):
             if kind == "attr":
                 name = op[2]
                 v = getattr(o, name)
-                if truth.get(name) is not RAISED and not _eq(v, truth[name]):
+                if name == "compute_t":
+                    if oi > 0 and not _eq(v, res.compute_t):
+                        out.violate("clone_differs", name, f"object #{oi} ({_lineage(origin, oi)}): compute_t differs from the original's")
+                elif truth.get(name) is not RAISED and not _eq(v, truth[name]):
                     cls = "clone_differs" if oi > 0 else "attr_changed_by_history"
                     out.violate(cls, name, f"object #{oi} ({_lineage(origin, oi)}): {name} differs from the pristine value")
                 out.count("attr_access")
@@ -258,6 +263,8 @@ def execute(sc, out):
                         out.violate("clone_differs", name, f"{tag} of object #{oi} at cache={st}: {name} differs from source")
                 if len(c) != nf or bool(c.iscsd) != iscsd or float(c.fs) != float(res.fs):
                     out.violate("clone_differs", "scalars", f"{tag}: len/iscsd/fs differ")
+            elif kind == "xpickle":
+                _xpickle(o, op[2], truth, iscsd, out)
             elif kind == "df":
                 df = o.to_dataframe()
                 _check_df(df, o, truth, nf, iscsd, out)
@@ -288,6 +295,8 @@ def execute(sc, out):
         for name in ALL_NAMES:
             if truth.get(name) is RAISED:
                 continue
+            if name == "compute_t":
+                truth[name] = _snap(res.compute_t)
             try:
                 v = getattr(o, name)
             except Exception as e:
@@ -298,6 +307,51 @@ def execute(sc, out):
                 out.violate(cls, name, f"final sweep: object #{oi} ({_lineage(origin, oi)}) {name} differs from the pristine value")
             out.observe(name, v if v is not None and name != "compute_t" else None)
     out.summary = {"kind": sc["kind"], "csd": iscsd, "nf": nf, "nops": len(sc["ops"]), "objects": len(objs)}
+
+
+_XSCRIPT = r"""
+import sys, pickle
+import speckit
+blob = sys.stdin.buffer.read()
+obj = pickle.loads(blob)
+names = %r
+vals = {}
+for n in names:
+    try:
+        vals[n] = getattr(obj, n)
+    except Exception as e:
+        vals[n] = ("<raised>", type(e).__name__, str(e)[:100])
+sys.stdout.buffer.write(pickle.dumps({"vals": vals, "len": len(obj), "again": pickle.dumps(obj, protocol=4)}, protocol=4))
+"""
+
+
+def _xpickle(o, proto, truth, iscsd, out):
+    """Crash-and-revive through a second interpreter: only the pickled bytes survive."""
+    import os
+    import subprocess
+    import sys
+
+    names = [n for n in ALL_NAMES if n != "compute_t"]
+    blob = pickle.dumps(o, protocol=proto)
+    env = dict(os.environ)
+    p = subprocess.run([sys.executable, "-c", _XSCRIPT % (names,)], input=blob, capture_output=True, env=env, timeout=240)
+    out.count("revive_cross_process")
+    if p.returncode != 0:
+        out.violate("exception", "pickle_cross_process", f"unpickling in a fresh interpreter failed: {p.stderr.decode(errors='replace')[-300:]}")
+        return
+    got = pickle.loads(p.stdout)
+    for n in names:
+        v = got["vals"].get(n)
+        if truth.get(n) is RAISED:
+            continue
+        if isinstance(v, tuple) and len(v) == 3 and v[0] == "<raised>":
+            out.violate("exception", f"getattr:{n}", f"in a fresh interpreter after unpickling: {v[1]}: {v[2]}")
+        elif not _eq(v, truth[n]):
+            out.violate("clone_differs", n, f"pickle (protocol {proto}) through a second interpreter: {n} differs from the source")
+    back = pickle.loads(got["again"])
+    for n in ("XX", "XY", "f", "K"):
+        if truth.get(n) is not RAISED and not _eq(getattr(back, n), truth[n]):
+            out.violate("clone_differs", n, "pickle round trip through a second interpreter and back differs")
 
 
 def _lineage(origin, oi):
@@ -430,7 +484,7 @@ def _check_df(df, o, truth, nf, iscsd, out):
     present = RM.RAW + RM.BOTH + (RM.CROSS_ONLY if iscsd else RM.AUTO_ONLY)
     for name in present:
         v = truth.get(name)
-        if isinstance(v, np.ndarray) and v.dtype != object and v.shape == (nf,) and name not in ("f", "G"):
+        if isinstance(v, np.ndarray) and v.dtype != object and v.shape == (nf,) and name not in ("f", "G", "compute_t"):
             if name not in df.columns:
                 out.violate("dataframe", name, "per-bin array missing from the DataFrame export")
 
